@@ -728,7 +728,7 @@ theorem allSome_expected (es : List (Bool × GitParams.Entry)) :
 
 /-- `params_parse_format`. For every sequence of `git -c key=value` entries — each written in the format of git ≥ 2.31
     (`'key'='value'`) or of older gits (`'key=value'`), entries separated by a blank — in which every entry is either
-    one the pattern admits (`goodDelta`: key `delta.` + lower-case letters and `-`; a value that is not empty and
+    one the pattern accepts (`goodDelta`: key `delta.` + lower-case letters and `-`; a value that is not empty and
     contains neither `'` nor `!`: spaces, `=`, `"`, `#`, non-ASCII text are all fine) or an entry of another section
     that cannot be mistaken for one (`inertForeign`), delta reads exactly the main-section entries, each with exactly
     its key and value, in order. Any number of entries, any lengths. Each excluded kind of entry is read differently
@@ -962,5 +962,45 @@ example : ThemeChoice.run (ThemeChoice.inOf sortedNames
     { noInputs with configFile := some { main := [("light", "true"), ("features", "a")],
                                          sections := [("a", [("dark", "true")])], other := [] } } none false none) = .fatal := by
   decide
+
+/-! ### `uninterpretedOptions`, shrunk (T11 (iii)) -/
+
+/-- The options among `uninterpretedOptions` whose statements `ThemeChoice` now interprets. -/
+def themeOptions : List Name := ["dark", "light", "syntax-theme"]
+
+/-- The statements of `set_options` that write `light` / `dark` / `syntax-theme` are the `BAT_THEME` fill and the
+    light / dark / syntax-theme call, both before the main `set_options!` (which does not list the three options) — the
+    two statements `ThemeChoice.initial` and `ThemeChoice.steps` model; what is left uninterpreted is the `navigate`
+    environment fall-back, `opt.features`, `whitespace-error-style` and the `true-color` alias. -/
+theorem uninterpreted_options_shrunk :
+    (stmts.filter fun s => s.writes.any themeOptions.contains).map (fun s => (s.phase, s.kind)) =
+      [("pre", "fill-if-none"), ("pre", "sub-macro")] ∧
+    (themeOptions.all fun o => !Generated.Options.setOptionsList.contains o) = true ∧
+    (uninterpretedOptions.filter fun o => !themeOptions.contains o) =
+      ["navigate", "features", "features", "whitespace-error-style", "true-color"] := by
+  decide
+
+/-- `post_processing_respects_sources`, restated for `light` / `dark` / `syntax-theme` (which the theorem above it leaves
+    out): whenever the resolution succeeds, a value given on the command line is final, and — the command line being
+    silent about the option (for `light` / `dark`: about both) — so is the value the git config gives (main section, then
+    the enabled features); only an option no source sets is filled in (`BAT_THEME`; the default of the colour mode). -/
+theorem post_processing_respects_sources_theme (i : ThemeChoice.In) (s : ThemeChoice.St) (m : ThemeChoice.Mode)
+    (t : String) (h : ThemeChoice.run i = .chosen s m t) :
+    (∀ x, i.cliTheme = some x → s.theme = some x) ∧
+    (i.cliLight = true → s.light = true) ∧ (i.cliDark = true → s.dark = true) ∧
+    (i.cliTheme = none → ∀ x, i.git.theme = some x → s.theme = some x) ∧
+    (i.cliLight = false → i.cliDark = false → ∀ b, i.git.light = some b → s.light = b) ∧
+    (i.cliLight = false → i.cliDark = false → ∀ b, i.git.dark = some b → s.dark = b) ∧
+    (i.cliTheme = none → i.git.theme = none → s.theme = i.bat) := by
+  obtain ⟨hl, hd, _⟩ := color_mode_precedence i s m t h
+  obtain ⟨ht, _⟩ := syntax_theme_precedence i s m t h
+  refine ⟨?_, ?_, ?_, ?_, ?_, ?_, ?_⟩
+  · intro x hx; simp [ht, hx]
+  · intro hx; simp [hl, hx]
+  · intro hx; simp [hd, hx]
+  · intro hc x hx; simp [ht, hc, hx]
+  · intro h1 h2 b hb; simp [hl, h1, h2, hb]
+  · intro h1 h2 b hb; simp [hd, h1, h2, hb]
+  · intro h1 h2; simp [ht, h1, h2]
 
 end C13
